@@ -21,3 +21,21 @@ def run(ctx: Ctx, pid: str) -> None:
         mod = importlib.import_module(f'kverif.props.{m.name}')
         for fn, rule in getattr(mod, 'EXTRA', {}).get(pid, []):
             fn(ctx, rule)
+
+
+def describe(pid: str) -> str:
+    """One sentence per extension module that contributes rules to this property: the rule ids and what kind of rules they are (the module's
+    `KINDS[pid]` text if given, else the first line of its docstring)."""
+    here = os.path.dirname(__file__)
+    parts = []
+    for m in sorted(pkgutil.iter_modules([here]), key=lambda m: m.name):
+        if not m.name.startswith('_x_'):
+            continue
+        mod = importlib.import_module(f'kverif.props.{m.name}')
+        entries = getattr(mod, 'EXTRA', {}).get(pid, [])
+        if not entries:
+            continue
+        ids = ', '.join(sorted({rule for _, rule in entries}, key=lambda r: [int(x) if x.isdigit() else x for x in r[1:].split('.')]))
+        kinds = getattr(mod, 'KINDS', {}).get(pid) or (mod.__doc__ or '').strip().split('\n')[0][:160]
+        parts.append(f'{m.name[3:]} [{ids}]: {kinds}')
+    return '; '.join(parts)
